@@ -137,7 +137,7 @@ CHECKS["C17"] = {
 CHECKS["C18"] = {
     "text": "Gibbs update = exact full conditional of the joint pedigree posterior J = prod lik_i x trioPmf_i for every gamete-size pair (per-gamete identity P(g-e_x)P(x|rest) = (g_x/tau)P(g), weights 2 tau/(tau_p+tau_q)); single-allele MH and the parental allele swap satisfy detailed balance w.r.t. J x prod mult!; J factorises over the Markov blanket of an individual / a parental pair; the joint of the code model is literally the C17 inheritance pmf (joint_code_eq_spec).",
     "design_ref": "DESIGN.md section 4, C18",
-    "note": _NOTE + "The former equal-weights code is refuted by a machine-checked counter-example (tau=(1,2)); oracles C18/gibbs/unbalanced-tau, C18/gibbs/nan-assert, C18/swap/read-mask guard the F6 / F11 / F5 repairs; under selfing (p = q) the swap is proved to permute the one genotype (swap_self_perm: unordered state unchanged whatever the decision); the MH vector-entry form is only tested.",
+    "note": _NOTE + "The former equal-weights code is refuted by a machine-checked counter-example (tau=(1,2)); oracles C18/gibbs/unbalanced-tau, C18/gibbs/nan-assert, C18/swap/read-mask guard the F6 / F11 / F5 repairs; under selfing (p = q) the swap is proved to permute the one genotype (swap_self_perm: unordered state unchanged whatever the decision); ped_mh_vector: the returned MH vector has min(1, ratio)/(n-1) at every other allele, the remaining mass at the current one and sums to one.",
     "technique": "Lean 4 proofs (MH.base_step_db / factProd_swap instances, termwise scaling of the allele-level pmf, product splitting over the blanket) + differential correspondence of probability vectors / prob_accept + exact-conditional and detailed-balance oracles",
 }
 CHECKS["C19"] = {
